@@ -29,6 +29,8 @@ def main():
     work.mkdir(parents=True, exist_ok=True)
     import logging
 
+    import msgpack
+
     import molli as ml
     from molli.pipeline.driver import DriverBase
     from molli.pipeline.job import Job, JobInput, JobOutput, jobmap
@@ -62,10 +64,21 @@ def main():
         m.coords = [[0.0, 0.0, 0.0], [1.2, 0.0, 0.0]]
         return m
 
-    def make_input(job, tag, xyz, return_files):
+    def make_input(job, tag, var, xyz, return_files):
+        """`var` changes exactly one field of the prepared input and nothing the commands do:
+        env<x>: the job's envars; files<x>: an extra input file; ret<x>: the spelling of return_files; cmd<x>: one more (no-op) command"""
         files = None if FILES == "none" else {} if FILES == "empty" else {"input.xyz": xyz}
         cmds = [(shlex.join(["sh", "-c", script(job, tag, i)]), f"t{i}") for i in range(ncmds(job))]
-        return JobInput(job, commands=cmds, files=files, return_files=return_files, envars=ENV)
+        envars = ENV
+        if var.startswith("env"):
+            envars = dict(ENV or {}, C18_VAR=var)
+        elif var.startswith("files"):
+            files = dict(files or {}, **{"variation.txt": var})
+        elif var.startswith("ret"):
+            return_files = {("r.txt",): ("r.txt", "r.txt"), None: (), (): None}[return_files]
+        elif var.startswith("cmd"):
+            cmds.append((shlex.join(["sh", "-c", f": {var}"]), None))
+        return JobInput(job, commands=cmds, files=files, return_files=return_files, envars=envars)
 
     def payload_of(out):
         """the result of a job: the returned file, or the last thing one of its commands printed"""
@@ -78,11 +91,11 @@ def main():
 
     class TDriver(DriverBase):
         @Job(return_files=RF).prep
-        def task(self, obj, tag):
-            return make_input(obj.name, tag, obj.dumps_xyz(), self.return_files)
+        def task(self, obj, tag, var=""):
+            return make_input(obj.name, tag, var, obj.dumps_xyz(), self.return_files)
 
         @task.post
-        def task(self, out, obj, tag):
+        def task(self, out, obj, tag, var=""):
             m = molecule(obj.name)
             m.attrib["result"] = tag + "|" + payload_of(out)
             return m
@@ -90,18 +103,18 @@ def main():
         # vectorised over the conformers of an ensemble: jobmap names the sub-jobs <key>.<i>; the job itself only sees
         # the conformer, whose index is carried in the x coordinate of its first atom
         @Job(return_files=RF).prep
-        def vtask_one(self, conf, tag):
+        def vtask_one(self, conf, tag, var=""):
             job = f"{conf.name}.{int(round(float(conf.coords[0][0])))}"
-            return make_input(job, tag, conf.dumps_xyz(), self.return_files)
+            return make_input(job, tag, var, conf.dumps_xyz(), self.return_files)
 
         @vtask_one.post
-        def vtask_one(self, out, conf, tag):
+        def vtask_one(self, out, conf, tag, var=""):
             return payload_of(out)
 
         vtask = Job.vectorize(vtask_one, name="vtask")
 
         @vtask.reduce
-        def vtask(self, results, ens, tag):
+        def vtask(self, results, ens, tag, var=""):
             m = molecule(ens.name)
             m.attrib["result"] = tag + "|" + ",".join(results)
             return m
@@ -143,6 +156,23 @@ def main():
                 dest[pre["key"]] = m
     destination = ml.MoleculeLibrary(dest_path, readonly=False)
 
+    def damage(path, kind):
+        import shutil
+
+        data = path.read_bytes() if path.is_file() else msgpack.dumps({"stdouts": {}, "stderrs": {}, "exitcode": 0, "files": {}, "input_hash": b"x"})
+        path.parent.mkdir(parents=True, exist_ok=True)
+        if path.is_dir():
+            shutil.rmtree(path)
+        if kind == "dir":
+            if path.exists():
+                path.unlink()
+            path.mkdir()
+            return
+        new = {"empty": b"", "cut1": data[:1], "cuthead": data[:3], "cutmid": data[: len(data) // 2], "cutlast": data[:-1],
+               "garbage": b"\xc1\xff\x00garbage" + data[5:], "wrongtype": msgpack.dumps([1, 2, 3]), "scalar": msgpack.dumps(7),
+               "otherkeys": msgpack.dumps({"unexpected": 1})}[kind]
+        path.write_bytes(new)
+
     def read_counters():
         return {p.name: int(p.read_text().strip() or 0) for p in counters.iterdir()}
 
@@ -176,11 +206,14 @@ def main():
             dest_path = work / f"dest_{ri}.mlib"
             ml.MoleculeLibrary(dest_path, readonly=False, overwrite=True)
             destination = ml.MoleculeLibrary(dest_path, readonly=False)
+        # cache outputs left behind by a killed run: torn, empty, overwritten, not even a file
+        for jobname, kind in r.get("damage", []):
+            damage(work / "cache" / "output" / f"{jobname}.out", kind)
         before = read_counters()
         rec = {"tag": r["tag"], "raised": None}
         try:
             jobmap(job, source, destination, cache_dir=work / "cache", scratch_dir=work / "scratch",
-                   n_workers=int(scen.get("n_workers", 4)), args=(r["tag"],), strict_hash=bool(r.get("strict", True)),
+                   n_workers=int(scen.get("n_workers", 4)), args=(r["tag"], r.get("var", "")), strict_hash=bool(r.get("strict", True)),
                    progress=False, verbose=False)
         except BaseException as e:      # noqa: BLE001 - the observation is "the call raised"
             rec["raised"] = type(e).__name__
